@@ -145,6 +145,14 @@ def check_after_run(case, s, t, n_total, where):
     if abs(float(ev[0]) - float(lz)) > 1e-9 * max(1.0, abs(float(lz))):
         raise Violation(f"{where}: evidence()={float(ev[0])!r} but the MIS evidence at beta=1 recomputed from the history is {float(lz)!r}",
                         sig={"kind": "evidence-mismatch"})
+    check_contract(case, s, t, where)
+    return T
+
+
+def check_contract(case, s, t, where):
+    """the posterior() contract alone (it is owed after ANY history change, e.g. one more sample() or a load_state(), not only after run())"""
+    from vlib import cfggen
+
     nblob = {"blobs": 1, "blobs2": 2}.get(case["mode"], 0)
     for rs, tr, rb, rl in itertools.product([False, True], repeat=4):
         what = f"{where}: posterior(resample={rs}, trim_importance_weights={tr}, return_blobs={rb}, return_logw={rl})"
@@ -161,7 +169,11 @@ def check_after_run(case, s, t, n_total, where):
                 raise Violation(f"{what}: row {i}: logl does not belong to x", sig={"kind": "row-logl"})
             if rb and nblob and not np.array_equal(np.asarray(o[3][i], dtype=float).ravel(), np.array(t.blob_vec(x[i]))):
                 raise Violation(f"{what}: row {i}: blob does not belong to x", sig={"kind": "row-blob"})
-    return T
+        if rl:
+            lw_out = np.asarray(o[-1], dtype=float)
+            if not rs and (np.any(~np.isfinite(lw_out)) or np.max(np.abs(np.exp(lw_out - np.max(lw_out)) / np.sum(np.exp(lw_out - np.max(lw_out))) - w)) > 1e-9):
+                raise Violation(f"{what}: the returned log-weights are not the logarithms of the returned weights (up to normalisation)",
+                                sig={"kind": "logw-vs-weights"})
 
 
 def exec_full(case):
@@ -183,6 +195,12 @@ def exec_full(case):
         with quiet():
             lib_call(s.run, n_total=n_total, progress=False, what="Sampler.run")
         T = check_after_run(case, s, t, n_total, "fresh run")
+        if case["pool_seed"] % 2:
+            # the history changes outside run(): one more iteration through the public sample(); the contract still holds
+            with quiet():
+                lib_call(s.sample, what="Sampler.sample [after run()]")
+            check_contract(case, s, t, "run() then one more sample()")
+            classes = classes + ["run-then-sample"]
         return {"nontrivial": T >= 3, "classes": classes, "sample": cfggen.summary(case)}
     with scratch_dir() as od:
         s, t = cfggen.build(case, output_dir=od)
